@@ -31,6 +31,20 @@ func Names() []string {
 	return n
 }
 
+// Main dispatches os.Args to the registered sub-commands (used by every cmd/vh_<family>).
+func Main() {
+	if len(os.Args) < 2 {
+		fmt.Fprintln(os.Stderr, "usage: vh <command> [flags]; commands:", Names())
+		os.Exit(2)
+	}
+	c, ok := Lookup(os.Args[1])
+	if !ok {
+		fmt.Fprintln(os.Stderr, "vh: unknown command", os.Args[1])
+		os.Exit(2)
+	}
+	c(os.Args[2:])
+}
+
 // Lines calls fn for every non-empty line of r (lines may be very long).
 func Lines(r io.Reader, fn func(line []byte) error) error {
 	br := bufio.NewReaderSize(r, 1<<20)
